@@ -53,7 +53,11 @@ size_t gclmulchunker::next_cut(const py::buffer& buffer, bool final = false) {
             return size / 2;
         else
             return max_length;
-    } else if (!final && size < max_length)
+    } else if (!final && size < ((max_length + 3) & -4))
+        // The last candidate offset is the largest multiple of 4 below max_length and
+        // its 8-byte window ends 4 bytes later, i.e. at max_length rounded up to the
+        // alignment. Wait until that much data is available instead of hashing
+        // whatever memory follows the buffer
         return 0;
 
     for (i = 4; i < max_length; i += 4) {
